@@ -1,0 +1,48 @@
+//go:build verif
+
+package ast
+
+import (
+	"fmt"
+	"strings"
+
+	"github.com/inspirer/textmapper/parsers/js"
+)
+
+// VerifBuild drives builder.addNode with the given (type, offset, endoffset) events and returns the resulting
+// stack of trees, bottom first, as an S-expression (read-only use of the builder; build tag verif).
+func VerifBuild(content string, events [][3]int) string {
+	b := newBuilder("", content)
+	for _, e := range events {
+		b.addNode(js.NodeType(e[0]), e[1], e[2])
+	}
+	var sb strings.Builder
+	sb.WriteString("(")
+	for i, n := range b.stack {
+		if i > 0 {
+			sb.WriteString(" ")
+		}
+		verifDump(&sb, n, nil)
+	}
+	sb.WriteString(")")
+	return sb.String()
+}
+
+// VerifTree returns the tree below the root as an S-expression.
+func VerifTree(t *Tree) string {
+	var sb strings.Builder
+	verifDump(&sb, t.root, nil)
+	return sb.String()
+}
+
+func verifDump(sb *strings.Builder, n *Node, parent *Node) {
+	fmt.Fprintf(sb, "(%d %d %d", int(n.t), n.offset, n.endoffset)
+	if n.parent != parent {
+		sb.WriteString(" badparent")
+	}
+	for c := n.firstChild; c != nil; c = c.next {
+		sb.WriteString(" ")
+		verifDump(sb, c, n)
+	}
+	sb.WriteString(")")
+}
